@@ -13,7 +13,6 @@ package storex
 
 import (
 	"fmt"
-	"os"
 	"sort"
 	"strings"
 
@@ -97,10 +96,6 @@ func (h *Hist) ConvR(i, opt int, o *hx.Out) {
 		return
 	}
 	l := h.Live[i]
-	lives := make([]Schema, len(h.Live))
-	for j, x := range h.Live {
-		lives[j] = x.S
-	}
 	visits, okScout := h.scoutVisits(i, opt)
 	var metas []string
 	for _, j := range visits {
@@ -113,26 +108,15 @@ func (h *Hist) ConvR(i, opt int, o *hx.Out) {
 		}
 		metas = append(metas, fmt.Sprintf("%d=%s", j, strings.Join(parts, "/")))
 	}
-	mtok := "0"
+	metaTok := "0"
 	if len(metas) > 0 {
-		mtok = strings.Join(metas, ",")
+		metaTok = strings.Join(metas, ",")
 	}
 	if !okScout {
-		mtok = "scout-failed"
+		metaTok = "scout-failed"
 	}
-	iso := "replay-failed"
-	if twin := Replay(h.Base, h.Calls); twin != nil && i < len(twin) {
-		iso = JS(twin[i], OptionsFor(opt, twin, i))
-	}
-	doc := JS(l.S, OptionsFor(opt, lives, i))
-	changed, bagChanged := h.relook(o, fmt.Sprintf("conv %d", i))
-	same, g := 1, "g"+idx(bagChanged)
-	if doc != iso {
-		same = 0
-		if os.Getenv("C08_DEBUG") != "" {
-			fmt.Fprintf(os.Stderr, "DOC %s live=%d opt=%d\n  got: %s\n  iso: %s\n", h.Base.Name, i, opt, doc, iso)
-		}
-	}
+	_, same, changed, bagChanged, dtok, mtok := h.convCore(i, opt, o)
+	g := "g" + idx(bagChanged) + mtok
 	var after []string
 	for _, j := range visits {
 		if j < len(h.Live) {
@@ -142,13 +126,9 @@ func (h *Hist) ConvR(i, opt int, o *hx.Out) {
 	if len(after) > 0 {
 		g += "r" + strings.Join(after, ",")
 	}
-	h.Steps = append(h.Steps, fmt.Sprintf("%d conv %d 0 %s %s %s 0 ToJSONSchema@%s", i, opt, mtok, l.Snap.BagState, l.Snap.ValState, shortType(l.S)))
-	h.Verd = append(h.Verd, fmt.Sprintf("%d:%s", same, idx(changed)))
+	h.Steps = append(h.Steps, fmt.Sprintf("%d conv %d %s %s %s %s 0 ToJSONSchema@%s", i, opt, dtok, metaTok, l.Snap.BagState, l.Snap.ValState, shortType(l.S)))
+	h.Verd = append(h.Verd, fmt.Sprintf("%s:%s", same, idx(changed)))
 	h.Strct = append(h.Strct, g)
 	h.Names = append(h.Names, fmt.Sprintf("conv(%d,opt%d)", i, opt))
-	o.Count("class:conv")
 	o.Count("class:conv-with-registry-checks")
-	if strings.HasPrefix(doc, "ERR:") {
-		o.Count("conv:unrepresentable")
-	}
 }
